@@ -303,6 +303,38 @@ Section update_facts.
   Lemma sel_eval_plain ev sel src st s :
     eval_sel sel src = Some s -> sel_eval ev sel src st = Done (s, st).
   Proof. destruct sel; cbn; intros H; [injection H as ->; reflexivity|rewrite H; reflexivity|discriminate]. Qed.
+  (* the frame of an update: EVERY skipped position (ignored / unmapped field) of the target struct keeps its value,
+     wherever it is and whatever the other fields do; the result has as many fields as the target had *)
+  Lemma each_field_frame ev ea : forall fs src olds st rs st',
+    each_field ev ea fs src olds st = Done (rs, st') ->
+    length rs = length olds /\ forall i, nth_error fs i = Some FSkip -> nth_error rs i = nth_error olds i.
+  Proof.
+    induction fs as [|f fr IH]; intros src olds st rs st' H; cbn [each_field] in H.
+    - destruct olds; [|discriminate]. injection H as <- _. split; [reflexivity|]. intros i Hi. destruct i; discriminate.
+    - destruct olds as [|o orr]; [discriminate|].
+      match type of H with obind ?X _ = _ => destruct X as [[v st1]| | | |] eqn:E1 end; cbn [obind] in H; try discriminate.
+      destruct (each_field ev ea fr src orr st1) as [[vs st2]| | | |] eqn:E2; cbn [obind] in H; try discriminate.
+      injection H as <- _. apply IH in E2 as [L Fr]. split; [cbn; congruence|].
+      intros [|i] Hi; cbn in Hi |- *.
+      + injection Hi as ->. injection E1 as <- _. reflexivity.
+      + apply Fr. exact Hi.
+  Qed.
+  (* ... and so does every guarded position whose selected source part is the zero value *)
+  Lemma each_field_frame_zero ev ea : forall fs src olds st rs st',
+    each_field ev ea fs src olds st = Done (rs, st') ->
+    forall i nm sel a s, nth_error fs i = Some (FAssign nm sel true a) -> eval_sel sel src = Some s -> is_zero s = true ->
+      nth_error rs i = nth_error olds i.
+  Proof.
+    induction fs as [|f fr IH]; intros src olds st rs st' H; cbn [each_field] in H.
+    - intros i nm sel a s Hi. destruct i; discriminate.
+    - destruct olds as [|o orr]; [discriminate|].
+      match type of H with obind ?X _ = _ => destruct X as [[v st1]| | | |] eqn:E1 end; cbn [obind] in H; try discriminate.
+      destruct (each_field ev ea fr src orr st1) as [[vs st2]| | | |] eqn:E2; cbn [obind] in H; try discriminate.
+      injection H as <- _. intros [|i] nm sel a s Hi Hs Hz; cbn in Hi |- *.
+      + injection Hi as ->. rewrite (sel_eval_plain ev _ _ st _ Hs) in E1. cbn [obind andb] in E1. rewrite Hz in E1. cbn [tag] in E1.
+        injection E1 as <- _. reflexivity.
+      + eapply IH; eauto.
+  Qed.
 End update_facts.
 
 (* F-C10-1 on the model: a nillable field converted through a (sub-)method call is assigned unconditionally,
